@@ -618,6 +618,8 @@ class Interp:
                 c = self.facts.consts.get(k["cdef"])
                 if c and "v" in c:
                     return mk_const(c["v"], c.get("ty"))
+                if c and c.get("fields"):
+                    return V("struct", adt=c.get("ty"), fields={n: mk_const(v) for n, v in c["fields"].items()})
                 return mk_obj(short(k["cdef"]), k.get("ty"))
             if k.get("ty") == "()":
                 return UNIT
@@ -869,6 +871,17 @@ class Interp:
                 return self.inline_call(st, self.facts.bodies[tgt.path], [tgt] + list(actual))
             if tgt.k == "fn" and tgt.path in self.facts.bodies and self.inline(tgt.path):
                 return self.inline_call(st, self.facts.bodies[tgt.path], list(actual))
+        # appending a slice whose elements are known is pushing them one after the other
+        if label == "Vec::extend_from_slice" and len(args) == 2:
+            sl = args[1]
+            n_ = 0
+            while sl is not None and sl.k == "ref" and n_ < 4:
+                n_ += 1
+                sl = sl.fields if isinstance(sl.fields, V) else None
+            if sl is not None and sl.k == "tuple" and sl.fields and all(isinstance(e_, V) and e_.k == "int" for e_ in sl.fields):
+                for e_ in sl.fields:
+                    st.effects.append(("Vec::push", [show(args[0]), show(e_)], body.where(bb)))
+                return [(st, UNIT)]
         # opaque call: record effect, havoc &mut locals
         st.effects.append((label, [show(a) for a in args], body.where(bb)))
         for a, op in zip(args, t["args"]):
@@ -1024,6 +1037,22 @@ class Interp:
                     for s2, tr2 in self.fork_cmp(st, "ge", d, Lin.const(tr[0])):
                         out.append((s2, mk_int(d, ty=ity) if tr2 else mk_const(tr[0], ity)))
                     return out
+                if meth in ("to_be_bytes", "to_le_bytes") and len(xs) == 1 and tr[0] == 0:
+                    # the octets of an unsigned number, most (least) significant first
+                    n = {"u8": 1, "u16": 2, "u32": 4, "u64": 8, "u128": 16, "usize": 8}[ity]
+                    bs = []
+                    for i in range(n):
+                        sh = 8 * (n - 1 - i)
+                        if n == 1:
+                            bs.append(xs[0])
+                            continue
+                        e = "Shr(%s, %d)" % (show(xs[0]), sh) if sh else show(xs[0])
+                        if i > 0:
+                            e = "(%s as u8)" % e
+                        bs.append(mk_int(Lin.sym(self.fresh_sym(st, "byte", 0, 255)), expr=e, ty="u8"))
+                    if meth == "to_le_bytes":
+                        bs.reverse()
+                    return [(st, V("tuple", fields=bs))]
                 if meth in ("to_be", "from_be", "to_le", "from_le", "swap_bytes"):
                     return [(st, mk_obj("%s(%s)" % (meth, show(xs[0])), ity))]
                 if meth == "wrapping_sub" and tr[0] == 0 and len(xs) == 2:
@@ -1037,6 +1066,27 @@ class Interp:
                     return [(st, mk_obj("%s(%s, %s)" % (meth, show(xs[0]), show(xs[1])), ity))]
                 if meth in ASCII_CLASSES and len(xs) == 1:
                     return self.in_ranges(st, xs[0].lin, ASCII_CLASSES[meth])
+        # integer `TryFrom` between primitive integer types: Ok(the same number) exactly when it fits the target type
+        mt = re.search(r"<impl std::convert::TryFrom<(\w+)> for (\w+)>::try_from$", res)
+        if std and mt and mt.group(1) in INT_RANGES and mt.group(2) in INT_RANGES and len(args) == 1:
+            xs = ints(1)
+            if xs is not None:
+                x = xs[0]
+                tr = INT_RANGES[mt.group(2)]
+                out = []
+                s_ok = st.copy()
+                r1 = self.constrain_le0(s_ok, x.lin.sub(Lin.const(tr[1])))
+                r2 = self.constrain_le0(s_ok, Lin.const(tr[0]).sub(x.lin)) if r1 is not False else False
+                if r1 is not False and r2 is not False and not s_ok.zone.empty:
+                    out.append((s_ok, V("variant", adt="std::result::Result", vidx=0, vname="Ok",
+                                        fields={0: mk_int(x.lin, expr=x.expr, ty=mt.group(2))})))
+                for bad in (Lin.const(tr[1] + 1).sub(x.lin), x.lin.sub(Lin.const(tr[0] - 1))):
+                    s_b = st.copy()
+                    r = self.constrain_le0(s_b, bad)
+                    if r is not False and not s_b.zone.empty:
+                        out.append((s_b, V("variant", adt="std::result::Result", vidx=1, vname="Err",
+                                           fields={0: mk_obj("TryFromIntError")})))
+                return out
         # `cond.then(|| v)` / `cond.then_some(v)`: Some(v) when cond, None otherwise
         if std and name in ("then", "then_some") and len(args) == 2 and (res.endswith("bool::then") or res.endswith("bool::then_some")
                                                                      or re.search(r"<impl bool>::then(_some)?$", res)):
